@@ -396,7 +396,7 @@ impl Engine for Scc {
             edges.push((u, v, id));
         };
         // swarm: shape of the graph varies per run
-        match if giant { *rng.pick(&[0usize, 4, 5, 5]) } else if huge { *rng.pick(&[0usize, 3, 4, 5]) } else { rng.below(5) } {
+        match if giant { *rng.pick(&[0usize, 4, 5, 5, 6, 6]) } else if huge { *rng.pick(&[0usize, 3, 4, 5, 6]) } else { rng.below(5) } {
             5 => {
                 // many small gadgets a->b, a->c, c->b and short cycles
                 let mut i = 0;
@@ -461,6 +461,28 @@ impl Engine for Scc {
                 for _ in 0..rng.below(3) {
                     let (u, v) = (rng.below(n), rng.below(n));
                     push(&mut edges, u.max(v), u.min(v));
+                }
+            }
+            6 => {
+                // one long path through many small components (every component is linked to the
+                // next one; a few links skip ahead): a depth-first walk from its head goes as deep
+                // as the graph is large
+                let mut i = 0;
+                while i < n {
+                    let len = rng.range(1, 3).min(n - i);
+                    for j in 0..len {
+                        if len > 1 || rng.chance(1, 6) {
+                            push(&mut edges, i + j, i + (j + 1) % len);
+                        }
+                    }
+                    if i + len < n {
+                        push(&mut edges, i + len - 1, i + len);
+                        if rng.chance(1, 50) {
+                            let to = (i + len + rng.below(40)).min(n - 1);
+                            push(&mut edges, i, to);
+                        }
+                    }
+                    i += len;
                 }
             }
             _ => {
@@ -576,7 +598,30 @@ impl Engine for Scc {
 
     fn execute(&self, sc: &SccSc, stats: &mut Stats) -> Option<(Violation, SccSc)> {
         stats.inc(&format!("runs_{}", sc.flavour));
-        let r = with_flavour!(sc.flavour.as_str(), F, run::<F>(sc, stats));
+        let r = if sc.n >= 2000 {
+            // graphs this large may hold paths thousands of edges long, and the library's
+            // orderings recurse along them: such scenarios run on a thread with a stack of its
+            // own (1 GiB reserved, touched only as deep as the walk goes), so that the depth a
+            // scenario reaches is never limited by whatever stack the worker happens to have
+            stats.inc("runs_on_a_thread_with_a_deep_stack");
+            std::thread::scope(|s| {
+                std::thread::Builder::new()
+                    .stack_size(1 << 30)
+                    .spawn_scoped(s, || match crate::locks::caught(|| with_flavour!(sc.flavour.as_str(), F, run::<F>(sc, stats))) {
+                        crate::locks::Caught::Ok(r) => r,
+                        crate::locks::Caught::Panic(m) => Some(Violation::new("panic", format!("scc() on a container of {} members panicked: {m}", sc.n))),
+                        crate::locks::Caught::Abort(m) => Some(Violation::new("deadlock", format!("scc() on a container of {} members cannot return: {m}", sc.n))),
+                    })
+                    .expect("spawn")
+                    .join()
+                    .unwrap_or_else(|_| {
+                        eprintln!("HARNESS-ERROR: the deep-stack thread of the scc engine died");
+                        std::process::exit(2)
+                    })
+            })
+        } else {
+            with_flavour!(sc.flavour.as_str(), F, run::<F>(sc, stats))
+        };
         r.map(|v| (v, sc.clone()))
     }
 
